@@ -499,12 +499,13 @@ def causekind_scenarios() -> list[Scenario]:
 
         def check(self, env: Env) -> list[Violation]:
             return [self.viol(env, 'wrong-selection', f"cause kind: {v.message}", cls='cause-kind', what=v.kind) for v in super().check(env)
-                    if v.kind in ('resume-not-first-sight', 'kind-mismatch', 'change-on-deleting', 'resume-on-deleting', 'delete-not-held', 'no-progress')]
+                    if v.kind in ('resume-not-first-sight', 'kind-mismatch', 'change-on-deleting', 'resume-on-deleting', 'delete-not-held', 'no-progress',
+                                  'wrong-cause', 'difference-taken-for-nothing')]
     globals()['CauseKindScenario'] = CauseKindScenario
     out: list[Scenario] = []
-    for bare in (False,):
-        for h in _c05.histories(3, bare):
-            if ('restart',) in h and ('label', 'a', 'l', 'v') in h:
+    for bare in (False, True):      # an object without spec/labels/annotations has an EMPTY essence: handled before is not the same as never seen
+        for h in _c05.histories(3 if not bare else 2, bare):
+            if (('restart',) in h or bare) and ('label', 'a', 'l', 'v') in h:
                 for fro in (True, False):
                     sc = _c05.build(h, bare, 6.0, False, filtered_resume_only=fro, delays=False, early_user=False, time_dev=False)
                     out.append(CauseKindScenario(**sc.params))
